@@ -19,6 +19,7 @@ RULE = ('(a) rule-directed templates: one family per rewrite rule of _expr_simp 
         'simplified tree differs structurally from the input (some rule fired).')
 RULE += ' Round 7: sibling terms identical except for nested constants that agree modulo 2^61-1, in the low half, or in all bits but the top one.'
 RULE += ' Round 8: mask-then-shift and shift-then-mask with every mask 0..255 x count 0..8 (8 bits) and masks around powers of two x counts 0..13, 31, 32 (32 bits); compositions in which two slices of one source that are consecutive in the source are separated by another piece; compositions with the same first component and a different later one under each operator.'
+RULE += " Round 9: a register and a symbol of the same name and width are two identifiers (as the library's own equality has it): templates that put both under one operator, in two addresses, in adjacent slices; the random valuations give them different values."
 ASSUMPTIONS = ['irsem is the meaning of the IR (self-test at setup)', 'termination is decided as bounded progress: at most 2000+400*nodes calls of _expr_simp per top-level call']
 
 _counter = {'n': 0, 'limit': 0}
@@ -62,6 +63,8 @@ def valuations(e, seedtag, n_random=6):
         envs.append(irsem.Env(seed=(seedtag, kind), ids=ids, segmented=True))
     for i in range(n_random):
         envs.append(irsem.Env(seed=(seedtag, i), segmented=True))
+    for env in envs[4:]:
+        env.split_reg_sym = True        # a register and a symbol of one name are two identifiers (the boundary valuations give both the same value)
     return envs
 
 
